@@ -13,6 +13,30 @@ CLAIMS = {
         technique="static analysis: must-pass-through on MIR CFG with alias tracking + "
                   "interprocedural must-write summaries; data-dependence of returned iterators",
     ),
+    "C07": dict(
+        text="Typestate of the alpha pipeline in Resizer::resample_convolution, decided on all CFG "
+             "paths: premultiply only under use_alpha && is_supported; on its success edge the "
+             "only convolution reads the premultiplied scratch image (with the original crop box) "
+             "and is followed on every path by exactly one divide of the destination; no divide "
+             "anywhere else; other convolutions read the original view; Nearest/copy reach no "
+             "alpha code; the five MulDiv pixel-type tables equal the set of AlphaMulDiv impls. "
+             "Does NOT decide the metamorphic equalities (independence of colours under alpha 0).",
+        note="Anchors by def-path (resample_convolution, multiply_alpha_typed, do_convolution, "
+             "divide_alpha*); unrecognised shapes become UNDECIDED.",
+        technique="static analysis: dominance / must-pass-through typestate on MIR CFG, "
+                  "call-graph reachability, enum-table comparison",
+    ),
+    "C12": dict(
+        text="Decides the structure of the same-size fast path: every resampler call in "
+             "resize_typed is dominated by the failure edge of copy_image and the success edge "
+             "returns without touching the destination again; copy_image returns Ok only under "
+             "the four integrality facts and both same-axis dimension equalities and copies rows "
+             "with copy_from_slice into iter_rows_mut(0); the need_horizontal/need_vertical "
+             "decisions depend only on their own axis; do_convolution writes on every "
+             "non-degenerate path (incl. the no-pass arm). Bit equality itself is not decided.",
+        note="Facts are branch conditions on dominating edges (no path enumeration).",
+        technique="static analysis: edge-dominance facts + must-write summaries on MIR",
+    ),
     "C02": dict(
         text="Structural necessary conditions for SIMD == native, decided for all paths and build "
              "configurations (x86, x86+rayon, aarch64/NEON, wasm32/SIMD128): every CpuExtensions "
